@@ -250,6 +250,7 @@ TARGETS = {
     't_tadpole': (4, [(1, 2), (2, 3), (1, 3), (3, 4)]), 't_star4': (4, [(1, 2), (1, 3), (1, 4)]),
     't_diamond': (4, [(1, 2), (2, 3), (3, 4), (4, 1), (1, 3)]),
     't_p2p2': (4, [(1, 2), (3, 4)]), 't_ring5': (5, [(1, 2), (2, 3), (3, 4), (4, 5), (5, 1)]),
+    't_cage5': (5, [(1, 2), (2, 3), (3, 4), (4, 1), (4, 2), (3, 5), (5, 2)]),
     't_house': (5, [(1, 2), (2, 3), (3, 4), (4, 1), (1, 5), (2, 5)]), 't_tri+p2': (5, [(1, 2), (2, 3), (1, 3), (4, 5)]),
 }
 
@@ -309,17 +310,17 @@ def brute_force(qa, qb, ta, tb, comps_t, atom_ok, bond_ok):
     return sorted(out)
 
 
-def h_search_level(V, pattern, target, falsify=False, sym_bonds=True, charges=(-2, 2)):
+def h_search_level(V, pattern, target, falsify=False, sym_bonds=True, charges=(-2, 2), q_sym=True, uniform=False):
     """whole matcher on small shapes with every charge (atom label) and bond order (bond label) symbolic"""
     pt = _pt()
     from chython.containers.bonds import Bond, QueryBond
     pn, pe = PATTERNS[pattern]
     tn, te = TARGETS[target]
     lo, hi = charges
-    qatoms = {n: _plain_query(V, f'q{n}', lo=lo, hi=hi) for n in range(1, pn + 1)}
+    qatoms = {n: _plain_query(V, f'q{n}', q_sym, lo=lo, hi=hi) for n in range(1, pn + 1)}
     qbonds = {}
     for k, (i, j) in enumerate(pe):
-        o = V.choice(f'qb{k}', [1, 2])
+        o = 1 if uniform else V.choice(f'qb{k}', [1, 2])
         qbonds[(i, j)] = QueryBond(o)
     tatoms = {}
     deg = {n: 0 for n in range(1, tn + 1)}
@@ -333,7 +334,7 @@ def h_search_level(V, pattern, target, falsify=False, sym_bonds=True, charges=(-
     tbonds = {}
     for k, (i, j) in enumerate(te):
         b = object.__new__(Bond)
-        o = V.wint(f'tb{k}_order', 1, 2) if sym_bonds else 1 + (k % 2)
+        o = V.wint(f'tb{k}_order', 1, 2) if sym_bonds else (1 if uniform else 1 + (k % 2))
         b._order = o
         b._in_ring = False
         b._stereo = None
@@ -421,6 +422,12 @@ def jobs(tier):
         J.append({'harness': 'search_level', 'params': {'pattern': p, 'target': t, 'sym_bonds': sb,
                                                         'charges': [0, 1] if not T else [-1, 1]},
                   'budget_s': 2400, 'validate_every': 50, 'weight': 1500})
+    # ring patterns on targets with chords / fused small rings (closure bookkeeping of the compiled search): target
+    # atom labels symbolic, query labels fixed
+    for p, t in [('ring4', 't_cage5'), ('ring4', 't_house'), ('ring4', 't_diamond'), ('tri', 't_diamond'), ('tri', 't_cage5')]:
+        J.append({'harness': 'search_level', 'params': {'pattern': p, 'target': t, 'sym_bonds': False, 'charges': [0, 1],
+                                                        'q_sym': False, 'uniform': True}, 'budget_s': 1200, 'validate_every': 20,
+                  'weight': 600})
     J.append({'harness': 'search_level', 'params': {'pattern': 'p2', 't' 'arget': 't_p3', 'falsify': True}, 'twin': True,
               'budget_s': 300, 'max_failures': 1, 'validate': False})
     return J
